@@ -111,4 +111,12 @@ Qed.
 (* multiplication by an exact factor *)
 Lemma approx_scal k l c a m : approx k c a m -> approx (S k) (fl (l * c)) (l * a) (Rabs l * m).
 Proof. intros A. apply (approx_mul 0 k l l (Rabs l) c a m (approx_exact l) A). Qed.
+(* fl(1 - s): one rounding, majorant |1 - s| *)
+Lemma approx_sub_exact s : approx 1 (fl (1 - s)) (1 - s) (Rabs (1 - s)).
+Proof.
+  apply (round_step 0).
+  - replace (1 - s - (1 - s)) with 0 by lra. rewrite Rabs_R0, g_0. lra.
+  - lra.
+  - simpl. lra.
+Qed.
 End Fl.
